@@ -109,8 +109,10 @@ theorem fundOrLocate_recovery {s s' : AState} {a : Acct} {fee : Bool} {f : Optio
   unfold fundOrLocate at h
   simp only [] at h
   split at h
-  · simp at h; exact h.1.symm
-  · simp at h
+  · split at h
+    · simp at h
+    simp at h; exact h.1.symm
+  · split at h <;> simp at h
 
 theorem ow_resume_recovery (s : AState) (a : Acct) (fee : Bool) (f : Option (Nat × Nat))
     (h : reportable a.state = true) : OnlyWrites s (resume s a false true fee f).1 := by
@@ -228,7 +230,9 @@ theorem fundOrLocate_acct {s s' : AState} {a : Acct} {r1 r2 fee : Bool} {f : Opt
   unfold fundOrLocate at h
   simp only [] at h
   split at h
-  · simp at h; rw [← h.1]
+  · split at h
+    · simp at h
+    simp at h; rw [← h.1]
   · repeat' split at h
     all_goals (try (simp at h))
     rw [← h.1]
